@@ -97,8 +97,28 @@ def render_xlsx(grid, *, opts=None, images=None) -> bytes:
         nrows, ncols = len(sh["rows"]), max([len(r) for r in sh["rows"]] + [1])
         dim = f"A1:{col_letter(c0 + ncols - 1)}{max(1, r0 + nrows)}"
         pn = part_no[i]
+        drawing_ref = ""
+        sheet_imgs = [(k, im) for k, im in enumerate(images or []) if im.get("unit", 0) == i]
+        if sheet_imgs:
+            anchors, drels = [], []
+            for j, (k, im) in enumerate(sheet_imgs):
+                name = f"image{k + 1}.{im['ext']}"
+                parts[f"xl/media/{name}"] = im["data"]
+                form = opts.get("img_ref", "parent")
+                drels.append((f"rId{j + 1}", ooxml.RT + "image", {"parent": "../media/" + name, "absolute": "/xl/media/" + name}[form], False))
+                cx, cy = im.get("disp_w", im["w"]) * 9525, im.get("disp_h", im["h"]) * 9525
+                anchors.append(f'<xdr:oneCellAnchor><xdr:from><xdr:col>{j}</xdr:col><xdr:colOff>0</xdr:colOff><xdr:row>{j * 3}</xdr:row><xdr:rowOff>0</xdr:rowOff></xdr:from><xdr:ext cx="{cx}" cy="{cy}"/>'
+                               f'<xdr:pic><xdr:nvPicPr><xdr:cNvPr id="{j + 2}" name="Picture {j + 1}" descr={quoteattr(im.get("alt", ""))}/><xdr:cNvPicPr/></xdr:nvPicPr>'
+                               f'<xdr:blipFill><a:blip xmlns:r="{ooxml.R}" r:embed="rId{j + 1}"/><a:stretch><a:fillRect/></a:stretch></xdr:blipFill>'
+                               f'<xdr:spPr><a:xfrm><a:off x="0" y="0"/><a:ext cx="{cx}" cy="{cy}"/></a:xfrm><a:prstGeom prst="rect"><a:avLst/></a:prstGeom></xdr:spPr></xdr:pic><xdr:clientData/></xdr:oneCellAnchor>')
+            parts[f"xl/drawings/drawing{pn}.xml"] = (f'<?xml version="1.0" encoding="UTF-8" standalone="yes"?><xdr:wsDr xmlns:xdr="http://schemas.openxmlformats.org/drawingml/2006/spreadsheetDrawing" xmlns:a="{ooxml.A}">'
+                                                     + "".join(anchors) + "</xdr:wsDr>")
+            parts[f"xl/drawings/_rels/drawing{pn}.xml.rels"] = ooxml._rels(drels)
+            parts[f"xl/worksheets/_rels/sheet{pn}.xml.rels"] = ooxml._rels([("rId1", ooxml.RT + "drawing", f"../drawings/drawing{pn}.xml", False)])
+            over.append(f'<Override PartName="/xl/drawings/drawing{pn}.xml" ContentType="application/vnd.openxmlformats-officedocument.drawing+xml"/>')
+            drawing_ref = '<drawing r:id="rId1"/>'
         parts[f"xl/worksheets/sheet{pn}.xml"] = (f'<?xml version="1.0" encoding="UTF-8" standalone="yes"?><worksheet xmlns="{MAIN}" xmlns:r="{ooxml.R}"><dimension ref="{dim}"/>'
-                                                 f'<sheetData>{"".join(rows_xml)}</sheetData></worksheet>')
+                                                 f'<sheetData>{"".join(rows_xml)}</sheetData>{drawing_ref}</worksheet>')
         over.append(f'<Override PartName="/xl/worksheets/sheet{pn}.xml" ContentType="application/vnd.openxmlformats-officedocument.spreadsheetml.worksheet+xml"/>')
         wb_sheets.append(f'<sheet name={quoteattr(sh["name"])} sheetId="{i + 1}" r:id="rId{i + 1}"/>')
         wb_rels.append((f"rId{i + 1}", ooxml.RT + "worksheet", f"worksheets/sheet{pn}.xml", False))
@@ -123,6 +143,8 @@ def render_xlsx(grid, *, opts=None, images=None) -> bytes:
               '<Override PartName="/xl/workbook.xml" ContentType="application/vnd.openxmlformats-officedocument.spreadsheetml.sheet.main+xml"/>',
               '<Override PartName="/xl/styles.xml" ContentType="application/vnd.openxmlformats-officedocument.spreadsheetml.styles+xml"/>',
               '<Override PartName="/docProps/core.xml" ContentType="application/vnd.openxmlformats-package.core-properties+xml"/>']
+    for ext_, mt in ooxml.MIME.items():
+        ctypes.append(f'<Default Extension="{ext_}" ContentType="{mt}"/>')
     ordered = {"[Content_Types].xml": f'<?xml version="1.0" encoding="UTF-8" standalone="yes"?><Types xmlns="{ooxml.CT}">' + "".join(ctypes + over) + "</Types>"}
     ordered.update(parts)
     return ooxml._zip(ordered)
@@ -189,6 +211,7 @@ def _ods_cell(cell):
 def render_ods(grid, *, opts=None, images=None) -> bytes:
     opts = opts or {}
     tables = []
+    media = {}
     for sh in grid["sheets"]:
         r0, c0 = sh.get("origin", [0, 0])
         ncols = c0 + max([len(r) for r in sh["rows"]] + [1])
@@ -216,12 +239,25 @@ def render_ods(grid, *, opts=None, images=None) -> bytes:
             body.append(f"<table:table-row>{''.join(cells)}</table:table-row>")
         hdr = sh.get("hdr_rows", 0)
         rows_xml = "".join(rows) + (f"<table:table-header-rows>{''.join(body[:hdr])}</table:table-header-rows>" if hdr else "") + "".join(body[hdr:])
+        shapes = ""
+        sheet_imgs = [(k, im) for k, im in enumerate(images or []) if im.get("unit", 0) == len(tables)]
+        if sheet_imgs:
+            frames = []
+            for k, im in sheet_imgs:
+                nm = f"Pictures/image{k + 1}.{im['ext']}"
+                media[nm] = im["data"]
+                href = {"relative": nm, "dot": "./" + nm}[opts.get("img_ref", "relative")]
+                w = im.get("disp_w_odf") or f"{im['w'] / 96 * 2.54:.4f}cm"
+                h = im.get("disp_h_odf") or f"{im['h'] / 96 * 2.54:.4f}cm"
+                frames.append(f'<draw:frame draw:name="Image {k + 1}" draw:z-index="{k}" svg:width="{w}" svg:height="{h}" svg:x="1cm" svg:y="{1 + k}cm">'
+                              f'<draw:image xlink:href={quoteattr(href)} xlink:type="simple" xlink:show="embed" xlink:actuate="onLoad"/></draw:frame>')
+            shapes = f"<table:shapes>{''.join(frames)}</table:shapes>"
         if opts.get("trailing_filler", True):
             # LibreOffice pads the sheet to its full size with repeated empty rows/cells
             rows_xml += f'<table:table-row table:number-rows-repeated="1048000"><table:table-cell table:number-columns-repeated="{max(ncols, 1024)}"/></table:table-row>'
-        tables.append(f'<table:table table:name={quoteattr(sh["name"])}><table:table-column table:number-columns-repeated="{max(ncols, 1)}"/>{rows_xml}</table:table>')
+        tables.append(f'<table:table table:name={quoteattr(sh["name"])}>{shapes}<table:table-column table:number-columns-repeated="{max(ncols, 1)}"/>{rows_xml}</table:table>')
     content = f'<?xml version="1.0" encoding="UTF-8"?><office:document-content {odf.NSDECL}>{odf.AUTO_STYLES}<office:body><office:spreadsheet>{"".join(tables)}</office:spreadsheet></office:body></office:document-content>'
-    return odf.package("ods", content, props=grid.get("props"))
+    return odf.package("ods", content, props=grid.get("props"), media=media)
 
 
 # ---- xls ------------------------------------------------------------------------------------------------------------
